@@ -165,12 +165,16 @@ impl Occ {
                 // Its possible that there are no occurences between the low and high
                 // checkpoint in which case we bail early.
                 if lo_occ == hi_occ {
+                    #[cfg(feature = "verif-hooks")]
+                    crate::verif::hit("occ.equal_checkpoints");
                     return lo_occ;
                 }
 
                 // If r is closer to the high checkpoint, count backwards from there.
                 let hi_idx = hi_checkpoint * self.k as usize;
                 if (hi_idx - r) < (self.k as usize / 2) {
+                    #[cfg(feature = "verif-hooks")]
+                    crate::verif::hit("occ.hi_checkpoint_back");
                     return hi_occ - bytecount::count(&bwt[r + 1..=hi_idx], a);
                 }
             }
